@@ -1,5 +1,6 @@
 import Driver.Util
 import RadicaleModel.Quote
+import RadicaleModel.Shell
 open Lean Radicale
 namespace Driver
 
@@ -18,6 +19,11 @@ def handleQuote (j : Json) : Json :=
   | "tofs" => match Path.toFilesystem s with
       | .ok parts => obj [("ok", Json.arr (parts.map jStr).toArray)]
       | .error bad => obj [("unsafe", jStr bad)]
+  | "shquote" => obj [("r", jStr (Shell.quote s))]
+  | "shwords" => match Shell.words s with
+      | some ws => obj [("r", Json.arr (ws.map jStr).toArray)]
+      | none => obj [("r", Json.null)]
+  | "token" => obj [("r", Json.bool (Path.checkTokenName s))]
   | _ => obj [("error", Json.str "bad-op")]
 
 end Driver
